@@ -2408,7 +2408,7 @@ class Skeleton:
             rx = re.sub(r"\\\$(\w+)", lambda m: "(?P<%s>[A-Za-z_][A-Za-z0-9_]*)" % m.group(1), re.escape(key))
             m = re.fullmatch(rx, c)
             if m:
-                for n, v in m.groupdict().items(): rep = rep.replace("$" + n, v)
+                for n, v in m.groupdict().items(): rep = re.sub(r"\$" + n + r"\b", v, rep)
                 return key, rep
         return None, None
 
@@ -3389,29 +3389,30 @@ SK_TRANSLATE = {
            "valid1: bool, valid2: bool, same_parms: bool, ntt_differ: bool, same_scale: bool, moduli: &[Modulus], t: &Modulus, n: usize) -> (usize, u64)",
     "prologue": "let mut size1 = size1_in; let mut cf1 = cf1_in;", "epilogue": "(size1, cf1)",
     "handles": [CTX1, CTX1 + ".parms()"],
+    # (phase 4g: the ordinary locals of the function are `$name` wildcards, so that renaming them changes nothing)
     "exprs": {"ciphertext1.is_ntt_form() != ciphertext2.is_ntt_form()": "ntt_differ",
               CTX1 + ".parms().coeff_modulus()": "moduli", CTX1 + ".parms().plain_modulus()": "t", CTX1 + ".parms().poly_modulus_degree()": "n",
               "ciphertext1.size()": "size1", "ciphertext2.size()": "size2",
               "ciphertext1.correction_factor() != ciphertext2.correction_factor()": "cf1 != cf2",
-              "Self::balance_correction_factors(ciphertext1.correction_factor(), ciphertext2.correction_factor(), plain_modulus)":
-                  "Evaluator::balance_correction_factors(cf1, cf2, plain_modulus)",
+              "Self::balance_correction_factors(ciphertext1.correction_factor(), ciphertext2.correction_factor(), $pm)":
+                  "Evaluator::balance_correction_factors(cf1, cf2, $pm)",
               "ciphertext1.data_mut()": "d1", "ciphertext2.data()": "d2", "ciphertext2.clone()": "d2.to_vec()",
-              "ciphertext2_copy.data_mut()": "ciphertext2_copy",
-              "ciphertext1.polys_mut(ciphertext1_size, ciphertext2_size)": "&mut d1[ciphertext1_size * %s..ciphertext2_size * %s]" % (PLEN, PLEN)},
+              "$c.data_mut()": "$c",
+              "ciphertext1.polys_mut($a, $b)": "&mut d1[$a * %s..$b * %s]" % (PLEN, PLEN)},
     "effects": {"self.check_ciphertext(ciphertext1)": "assert!(valid1);", "self.check_ciphertext(ciphertext2)": "assert!(valid2);",
                 "self.match_parms_id(ciphertext1, ciphertext2)": "assert!(same_parms);",
                 "self.match_scale(ciphertext1, ciphertext2)": "assert!(same_scale);",
-                "ciphertext1.resize(&self.context, " + CTX1 + ".parms_id(), max_count)":
-                    "assert!(!((max_count < HE_CIPHERTEXT_SIZE_MIN && max_count != 0) || max_count > HE_CIPHERTEXT_SIZE_MAX)); "
-                    "d1.resize(max_count * n * moduli.len(), 0); size1 = max_count;",
-                "ciphertext1.set_correction_factor(factors.0)": "cf1 = factors.0;",
-                "ciphertext2_copy.set_correction_factor(factors.0)": "",
-                "ciphertext1.polys_mut(ciphertext1_size, ciphertext2_size).copy_from_slice(ciphertext2.polys(ciphertext1_size, ciphertext2_size))":
-                    "d1[ciphertext1_size * %s..ciphertext2_size * %s].copy_from_slice(&d2[ciphertext1_size * %s..ciphertext2_size * %s]);" % (PLEN, PLEN, PLEN, PLEN)}}
-REC = "self.translate_inplace(ciphertext1, &ciphertext2_copy, is_subtract)"
+                "ciphertext1.resize(&self.context, " + CTX1 + ".parms_id(), $m)":
+                    "assert!(!(($m < HE_CIPHERTEXT_SIZE_MIN && $m != 0) || $m > HE_CIPHERTEXT_SIZE_MAX)); "
+                    "d1.resize($m * n * moduli.len(), 0); size1 = $m;",
+                "ciphertext1.set_correction_factor($f.0)": "cf1 = $f.0;",
+                "$c.set_correction_factor($f.0)": "",
+                "ciphertext1.polys_mut($a, $b).copy_from_slice(ciphertext2.polys($a2, $b2))":
+                    "d1[$a * %s..$b * %s].copy_from_slice(&d2[$a2 * %s..$b2 * %s]);" % (PLEN, PLEN, PLEN, PLEN)}}
+REC = "self.translate_inplace(ciphertext1, &$c, is_subtract)"
 SK_TRANSLATE_EQ = dict(SK_TRANSLATE, effects=dict(SK_TRANSLATE["effects"], **{REC: "panic!();"}))      # recursion depth 2: cut off (unreachable: the factors are equal there)
 SK_TRANSLATE_TOP = dict(SK_TRANSLATE, effects=dict(SK_TRANSLATE["effects"], **{REC:
-    "let r = translate_inplace_eq(d1, size1, cf1, &ciphertext2_copy, size2, cf1, is_subtract, valid1, valid2, same_parms, ntt_differ, same_scale, moduli, t, n); "
+    "let r = translate_inplace_eq(d1, size1, cf1, &$c, size2, cf1, is_subtract, valid1, valid2, same_parms, ntt_differ, same_scale, moduli, t, n); "
     "size1 = r.0; cf1 = r.1;"}))
 CTXN = "self.get_context_data(ciphertext.parms_id())"
 SK_NEGATE = {"sig": "fn negate_inplace(d: &mut Vec<u64>, size: usize, valid: bool, moduli: &[Modulus], n: usize)",
